@@ -170,6 +170,26 @@ def work(pid, tier, seed, shard, nshards, outpath):
             return None
         return v
 
+    # ---- regression corpus: shrunk failing inputs of earlier findings, seeded changes and mutants (seconds-long replay tier)
+    import glob
+
+    corpus = []
+    for f in sorted(glob.glob(os.path.join(os.path.dirname(os.path.dirname(os.path.abspath(__file__))), "regress", pid, "*.json"))):
+        try:
+            with open(f) as fh:
+                corpus.append((os.path.basename(f), json.load(fh)["case"]))
+        except (OSError, ValueError, KeyError):
+            raise RuntimeError(f"unreadable regression case {f}")
+    for i, (name, case) in enumerate(corpus):
+        if i % nshards != shard:
+            continue
+        res = run_maybe_probed(mod, case)
+        res["labels"] = sorted(set(res["labels"]) | {"regression_corpus"})
+        stats.exhaustive_cases += 1
+        v = handle(case, res, "corpus")
+        if v is not None and v["key"] not in stats.violations:
+            stats.violations[v["key"]] = {"case": case, "msg": f"[regression corpus {name}] " + v["msg"], "shrunk": True}
+
     # ---- exhaustive slice
     if hasattr(mod, "enumerate_cases"):
         cases = mod.enumerate_cases(tier)
